@@ -22,7 +22,7 @@ RULE = ("each case = one config (interface-like stanzas, depth <= 4, values plac
         "default (str/int/float/None/bool) typed or untyped.  The harness supplies per line the group text re.search yields and per text the value "
         "result_type(text) yields (or that it raises); the Gallina model is run on the dumped forest and compared with the value returned "
         "(type name + printed form) or 'raised'.  non-trivial = the answer comes from a line other than the queried one, or is the default "
-        "with at least one child present, distinct by (API, type, recurse, untyped, where the first match sits, answer kind). In 15% of the non-root cases the queried line object is edited in place (obj.text = the words of another line, same column) after the parse and before the call: extraction must read the current text.")
+        "with at least one child present, distinct by (API, type, recurse, untyped, where the first match sits, answer kind). In 15% of the non-root cases the queried line object is edited in place (obj.text = the words of another line, same column) after the parse and before the call: extraction must read the current text. The dumped forest is vetted as in C04 (it must be the tree the text denotes); banner and macro bodies are queried too.")
 EXHAUSTIVE = {"quick": False, "thorough": False}
 TRUSTED = [
     "Coq 8.16.1 kernel incl. vm_compute",
